@@ -124,6 +124,10 @@ pub struct EnvConfig {
     pub grant_menu: Vec<usize>,
     /// once stalled the transport never takes another byte (a dead peer): no grant is offered
     pub no_grants: bool,
+    /// absolute offsets of the server->client stream at which a delivery always stops (the
+    /// client reads up to there, meets would-block, and gets the rest with the next delivery):
+    /// segmentation imposed on the default execution, at no deviation cost
+    pub force_cuts: Vec<usize>,
     /// faults that may be injected at any scheduling point (each at most once)
     pub faults: Vec<FaultKind>,
     /// deliver exactly this many server bytes, then make the fault visible (crash-point sweep)
@@ -153,6 +157,7 @@ impl Default for EnvConfig {
             stall_after: None,
             grant_menu: vec![],
             no_grants: false,
+            force_cuts: Vec::new(),
             faults: vec![],
             crash_after_inbound: None,
             fail_write_call: None,
@@ -438,10 +443,13 @@ impl St {
             let crash_pending = self.cfg.crash_after_inbound.as_ref().map(|(off, _)| self.tr.inbound_delivered >= *off).unwrap_or(false);
             if !self.tr.pending.is_empty() && !crash_pending {
                 let n = self.tr.pending.len();
-                let all = match &self.cfg.crash_after_inbound {
+                let mut all = match &self.cfg.crash_after_inbound {
                     Some((off, _)) => n.min(off - self.tr.inbound_delivered),
                     None => n,
                 };
+                if let Some(c) = self.cfg.force_cuts.iter().filter(|c| **c > self.tr.inbound_delivered).min() {
+                    all = all.min(c - self.tr.inbound_delivered);
+                }
                 v.push(Choice::Env(EnvAction::Deliver(all), format!("deliver({})", all)));
                 for c in self.deliver_menu() {
                     if c < all {
